@@ -60,6 +60,14 @@ CLAIMED = {
             'floats as reals (threshold is the exact double 0.00015, written like is_price_near); templates T1-T6; valid-side exits assumed; '
             '2-3 symbolic candles',
             TECH),
+    'C06': ('DESIGN.md C06',
+            'Bounded solver-based check: symbolic sessions through the real simulator; the fills of each path are folded through the '
+            'average-cost model to the expected hook per fill, expected position size and expected closed trade per open..close cycle; z3 '
+            'proves hooks, every ClosedTrade field and sum(trade.pnl) == wallet change (futures). Two genuine defects are listed in '
+            'known_findings.json (oversize reduce-only exit, position flip) and reported as KNOWN-FINDING.',
+            'floats as reals; templates T0-T3, T3o, T5, T8f with concrete quantities and symbolic prices/fee; 2-3 symbolic candles; '
+            'weighted prices compared cross-multiplied; wallet identity within 1e-9 relative',
+            TECH),
 }
 
 NOT_YET = {}
